@@ -116,6 +116,11 @@ func formatValue(val any) string {
 		return fmt.Sprintf("[%s]", strings.Join(items, ", "))
 	}
 
+	if text, ok := val.(string); ok {
+		// `$` starts a variable in a double-quoted PHP string
+		return strings.ReplaceAll(fmt.Sprintf("%#v", text), "$", "\\$")
+	}
+
 	return fmt.Sprintf("%#v", val)
 }
 
